@@ -222,25 +222,35 @@ void run_parse(const char *input) {
         finish(&e2);
         h_env_free(&e2);
     } else {
-        /* A on context 1; snapshot registers and queue; give both contexts the same persistent state; then B on both */
-        scpi_reg_val_t regs[SCPI_REG_COUNT]; qent_t q[64]; int nq = 0, k; scpi_error_t err; FILE *keep;
+        /* A on context 1, which is then left exactly as A left it (only its unterminated input tail is dropped);
+         * context 2 is a fresh context given A's registers and A's queue content and nothing else: every other field
+         * keeps the value SCPI_Init gave it (the pushes that rebuild the queue are undone for everything but the queue) */
+        scpi_reg_val_t regs[SCPI_REG_COUNT]; int k; FILE *keep; scpi_t snap;
         char *junk; size_t junklen;
         keep = EV; EV = open_memstream(&junk, &junklen);          /* A's own events are not part of the comparison */
         for (i = 0; i < na; i++) feed(&e1, chunksA[i]);
-        /* make sure A is terminated so that B starts a new message */
         fclose(EV); free(junk); EV = keep;
-        e1.iface.error = NULL;
         for (k = 0; k < SCPI_REG_COUNT; k++) regs[k] = e1.ctx.registers[k];
-        while (SCPI_ErrorCount(&e1.ctx) > 0 && nq < 64) {
-            SCPI_ErrorPop(&e1.ctx, &err); q[nq].code = err.error_code; q[nq].text = NULL;
-#if USE_DEVICE_DEPENDENT_ERROR_INFORMATION && USE_MEMORY_ALLOCATION_FREE
-            q[nq].text = err.device_dependent_info;
-#endif
-            nq++;
-        }
         h_env_init(&e2, t->table, (size_t) bufsize, qcap, 64); e2.iface.error = NULL;
-        for (k = 0; k < nq; k++) { SCPI_ErrorPushEx(&e1.ctx, (int16_t) q[k].code, q[k].text, 0); SCPI_ErrorPushEx(&e2.ctx, (int16_t) q[k].code, q[k].text, 0); free(q[k].text); }
-        for (k = 0; k < SCPI_REG_COUNT; k++) { e1.ctx.registers[k] = regs[k]; e2.ctx.registers[k] = regs[k]; }
+        snap = e2.ctx;
+        for (k = 0; k < e1.ctx.error_queue.count; k++) {
+            scpi_error_t *qe = &e1.ctx.error_queue.data[(e1.ctx.error_queue.rd + k) % e1.ctx.error_queue.size];
+            char *txt = NULL;
+#if USE_DEVICE_DEPENDENT_ERROR_INFORMATION
+            txt = qe->device_dependent_info;
+#endif
+            SCPI_ErrorPushEx(&e2.ctx, qe->error_code, txt, 0);
+        }
+        { scpi_fifo_t qkeep = e2.ctx.error_queue;
+#if USE_DEVICE_DEPENDENT_ERROR_INFORMATION && !USE_MEMORY_ALLOCATION_FREE
+          scpi_error_info_heap_t hkeep = e2.ctx.error_info_heap;
+#endif
+          e2.ctx = snap; e2.ctx.error_queue = qkeep;
+#if USE_DEVICE_DEPENDENT_ERROR_INFORMATION && !USE_MEMORY_ALLOCATION_FREE
+          e2.ctx.error_info_heap = hkeep;
+#endif
+        }
+        for (k = 0; k < SCPI_REG_COUNT; k++) e2.ctx.registers[k] = regs[k];
         /* pending input of A (an unterminated tail) is part of the stream, not of the persistent state: drop it on both */
         e1.ctx.buffer.position = 0;
         e1.iface.error = cb_error_ev; e2.iface.error = cb_error_ev;
